@@ -89,6 +89,12 @@ def _make(conv, shape, holes, skew, mesh_opts=None):
                 lon[j, i] = numpy.nan
             ds = builders.cf2d(ny, nx, lat=lat, lon=lon) if conv == 'cf2d' else builders.shoc_simple(ny, nx, lat=lat, lon=lon)
             return ds, (CFGrid2D(ds) if conv == 'cf2d' else ShocSimple(ds))
+        if (mesh_opts or {}).get('misdim'):
+            # bounds stored (x, y, 4) next to coordinates stored (y, x): not the layout of this grid - ignored with a
+            # warning, the cells are derived from the centres
+            kw = dict(lat_bounds=latb.transpose(1, 0, 2).copy(), lon_bounds=lonb.transpose(1, 0, 2).copy(), bounds_dims=('x', 'y', 'four') if conv == 'cf2d' else ('i', 'j', 'four'))
+            ds = builders.cf2d(ny, nx, lat=lat, lon=lon, **kw) if conv == 'cf2d' else builders.shoc_simple(ny, nx, lat=lat, lon=lon, **kw)
+            return ds, (CFGrid2D(ds) if conv == 'cf2d' else ShocSimple(ds))
         REF['corners'] = (lonb, latb)
         if conv == 'cf2d':
             ds = builders.cf2d(ny, nx, lat=lat, lon=lon, lat_bounds=latb, lon_bounds=lonb)
@@ -234,7 +240,8 @@ def cases(tier):
     # cells derived from the centres (a missing centre one cell in from the border; a one-cell-wide channel); coordinate
     # variables named by the caller
     for conv, shape, holes, mo in (('cf2d', (3, 4), ((1, 1),), dict(derived=True)), ('shoc_simple', (3, 3), ((0, 1), (2, 1)), dict(derived=True)),
-                                   ('cf1d', (2, 3), (), dict(explicit=True)), ('cf1d', (3, 2), (), dict(int_coords=True))):
+                                   ('cf1d', (2, 3), (), dict(explicit=True)), ('cf1d', (3, 2), (), dict(int_coords=True)),
+                                   ('cf2d', (2, 3), (), dict(misdim=True)), ('shoc_simple', (3, 2), (), dict(misdim=True))):
         yield Case(f'{conv}:{shape[0]}x{shape[1]}:holes{len(holes)}:{"+".join(mo)}:get_index_for_point', body,
                    dict(conv=conv, shape=shape, holes=holes, skew=True, via='get_index_for_point', mesh_opts=mo),
                    max_paths=60000, split=32, patches=PATCHES)
@@ -245,7 +252,9 @@ def cases(tier):
                    max_paths=20000, split=16, patches=PATCHES)
     # unsigned connectivity tables with a fill value attribute (ragged mesh, one-based with fill 0; zero-based with fill 65535)
     for mo in (dict(start_index=1, fill='attr', fill_value=0, dtype='uint16'), dict(start_index=0, fill='attr', fill_value=65535, dtype='uint16'),
-               dict(start_index=1, fill='attr', fill_value=0, dtype='int32')):
+               dict(start_index=1, fill='attr', fill_value=0, dtype='int32'),
+               # start_index stored as the text "0" / "1"
+               dict(start_index=0, fill='nan', start_index_as_text=True), dict(start_index=1, fill='attr', start_index_as_text=True)):
         tag = '+'.join(f'{k}={v}' for k, v in mo.items())
         yield Case(f'ugrid:tqp:{tag}:get_index_for_point', body,
                    dict(conv='ugrid', shape='tqp', holes=(), skew=False, via='get_index_for_point', mesh_opts=mo),
